@@ -8,12 +8,14 @@
 
     External engines are Section variables (the theorems quantify over them, the correspondence feeds the
     answers of the real engines): [rq] = classification of query.RegexpQuery's result (regexp/syntax +
-    OptimizeRegexp), [rx_auto] = Regexp.setCase("auto") (!r.Equal(LowerRegexp(r))), [rcompile] = does
+    OptimizeRegexp), [rx_auto] = Regexp.setCase("auto") (!r.Equal(LowerRegexp(r)); modelled over the regexp's
+    syntax tree in Model/RegexCase.v, which is what the correspondence plugs in here), [rcompile] = does
     grafana regexp.Compile accept, [lang] = languages.GetLanguageByNameOrAlias.
 
     The token type numbers, the [prefixes] and [reservedWords] tables are GENERATED from the source
     (Generated/ParserTables.v).  This file contains no proofs. *)
 From ZV Require Import Lib.Base Model.Query Generated.ParserTables.
+From ZV Require Model.Regex Model.RegexCase.
 From Coq Require Import String Ascii.
 Notation length := List.length (only parsing).
 Open Scope N_scope.
@@ -474,8 +476,11 @@ Definition t_compile (t : oracle_table) (k : str) : bool :=
   match lookup k t with Some (_, c, _) => c | None => false end.
 Definition t_lang (t : oracle_table) (k : str) : option str :=
   match lookup k t with Some (_, _, l) => l | None => Some (bs "<<unknown text>>") end.
-Definition t_auto (t : list (str * bool)) (k : str) : bool :=
-  match lookup k t with Some b => b | None => false end.
+(** Regexp.setCase("auto") is NOT fed from the implementation: the table maps the source of each proper regexp
+    to its syntax tree (dumped from the *syntax.Regexp the parser produced) and the model of LowerRegexp /
+    Regexp.Equal (Model/RegexCase.v) decides. *)
+Definition t_auto (t : list (str * Regex.re)) (k : str) : bool :=
+  match lookup k t with Some a => RegexCase.re_auto a | None => false end.
 
 Definition outcome_q_eqb (a b : outcome Q) : bool :=
   match a, b with
@@ -488,8 +493,8 @@ Definition outcome_q_eqb (a b : outcome Q) : bool :=
 Definition tok_eqb (a b : N * str * nat) : bool :=
   let '(t, x, n) := a in let '(t', x', n') := b in N.eqb t t' && str_eqb x x' && Nat.eqb n n'.
 
-(** case = (input, engine answers, Regexp.setCase(auto) answers, Go's token scan, Go's Parse outcome) *)
-Definition c07case := (str * oracle_table * list (str * bool) * (list (N * str * nat) * N) * outcome Q)%type.
+(** case = (input, engine answers, syntax trees of the proper regexps, Go's token scan, Go's Parse outcome) *)
+Definition c07case := (str * oracle_table * list (str * Regex.re) * (list (N * str * nat) * N) * outcome Q)%type.
 
 Definition c07_ok (c : c07case) : bool :=
   let '(s, tab, autos, (gtoks, gend), gres) := c in
